@@ -396,10 +396,11 @@ pub fn cli(ctx: &Ctx) -> Stats {
             w = [1_000_000usize, 10_000_000_000, 10_000_000_000_000, 1 << 62][(idx / 10 % 4) as usize];
             st.class("window far longer than every record");
         }
-        let mode = if idx % 2 == 0 { MinMode::S2m } else { MinMode::M2s };
+        let mut mode = if idx % 2 == 0 { MinMode::S2m } else { MinMode::M2s };
         let mut threads = rng.usize(0, 16);
         let mut recs = recs;
         if idx % 16 == 5 {
+            mode = if (idx / 16) % 3 != 2 { MinMode::S2m } else { MinMode::M2s };
             // (a named-pipe case with a listing of several hundred kilobytes written by several workers)
             let n = rng.usize(2500, 4000);
             recs = (0..n).map(|i| Rec { id: format!("p{}", i), desc: None, seq: gen_seq(&mut rng, SeqClass::Uniform, 80 + i % 70, true) }).collect();
@@ -552,6 +553,42 @@ pub fn bulk(ctx: &Ctx) -> Stats {
         let bytes = res.1.as_ref().map_or(0, |o| o.len());
         judge(&mut st, mode, &res, &recs, w, m, threads, "bulk");
         st.sample(Json::obj().set("w", Json::u(w)).set("m", Json::u(m)).set("records", Json::u(nrec)).set("total_bases", Json::u(total)).set("output_bytes", Json::u(bytes)).set("threads", Json::u(threads)).set("mode", Json::s(format!("{:?}", mode))));
+    }
+    st
+}
+
+/// one straggler: a single record of a few megabases (tens of milliseconds of work, a line of several megabytes)
+/// among ten thousand short reads, 2-8 workers — the worker that holds the long record falls thousands of records
+/// behind the others, which is when bounded reorder buffers, sequence-numbered slots and hand-off queues overflow
+pub fn straggler(ctx: &Ctx) -> Stats {
+    let n = ctx.n(3, 16);
+    let mut st = Stats::new();
+    for idx in 0..n {
+        if ctx.expired() {
+            st.truncated = true;
+            break;
+        }
+        let mut rng = Rng::keyed(ctx.seed, "c10.straggler", idx);
+        let m = rng.usize(6, 10);
+        let w = m + rng.usize(4, 10);
+        let nshort = rng.usize(9000, 14000);
+        let long_len = rng.usize(1_500_000, 3_000_000);
+        let long_at = match idx % 3 {
+            0 => 0,
+            1 => nshort / 2,
+            _ => rng.usize(1, 50),
+        };
+        let mut recs: Vec<Rec> = (0..nshort).map(|i| Rec { id: format!("s{}", i), desc: None, seq: gen_seq(&mut rng, SeqClass::Uniform, 25 + i % 30, true) }).collect();
+        recs.insert(long_at, Rec { id: "straggler".into(), desc: None, seq: gen_seq(&mut rng, SeqClass::Uniform, long_len, true) });
+        let sc = Scratch::new(ctx, "c10S");
+        let inp = sc.write("in.fa", &ser::to_fasta(&recs, &SerOpts::plain()));
+        let mode = if idx % 4 == 3 { MinMode::M2s } else { MinMode::S2m };
+        let threads = [3usize, 2, 8, 5][(idx % 4) as usize];
+        st.case(true, mix(idx) ^ mix(long_len as u64));
+        st.class(&format!("{:?} threads={}", mode, threads));
+        let res = run_min(mode, w, m, &inp, &sc.path("out.txt"), threads, None);
+        judge(&mut st, mode, &res, &recs, w, m, threads, "straggler");
+        st.sample(Json::obj().set("w", Json::u(w)).set("m", Json::u(m)).set("short_records", Json::u(nshort)).set("long_record_bases", Json::u(long_len)).set("long_record_at", Json::u(long_at)).set("threads", Json::u(threads)).set("mode", Json::s(format!("{:?}", mode))));
     }
     st
 }
